@@ -49,6 +49,8 @@ static int fs_recording = 0;	/* collect instead of printing (unit style inc_open
 /* get_dir (path, -1): the stat () calls issued while the directory stream the efun opened is still open are
  * per-entry calls in readdir order (the kernel's): they are collected and printed SORTED as `fs stat-entry`
  * when the stream is closed (or the call ends) */
+static char **root_keep;
+static int root_nkeep;
 static int dir_open = 0;
 static char *ent_rec[1024];
 static int ent_n = 0;
@@ -67,7 +69,18 @@ static void ent_flush (void)
   qsort (ent_rec, n, sizeof ent_rec[0], ent_cmp);
   for (int i = 0; i < n; i++)
     {
-      fs_log ("stat-entry", 0, ent_rec[i]);
+      /* the mudlib root also holds the framework's own files (other properties' directories, master.c ...): a
+         per-entry call on one of those - "./<name>", <name> present before the first case and not part of the
+         fixture - is not logged (the model only knows the fixture) */
+      const char *nm = ent_rec[i];
+      int skip = 0;
+      if (nm[0] == '.' && nm[1] == '/' && !strchr (nm + 2, '/') && strcmp (nm + 2, "include")
+	  && strcmp (nm + 2, ".") && strcmp (nm + 2, ".."))
+	for (int k = 0; k < root_nkeep; k++)
+	  if (!strcmp (root_keep[k], nm + 2))
+	    skip = 1;
+      if (!skip)
+	fs_log ("stat-entry", 0, nm);
       free (ent_rec[i]);
     }
 }
@@ -471,12 +484,12 @@ static object_t *the_obj (void)
 
 /* current policy as the harness knows it (to print the verdict of the unit-style cvp lines) */
 static char pol_kind[16] = "allow";
-static char pol_str[1100] = "";
+static char pol_str[4200] = "";
 
 static void set_policy (const char *tok, int quiet)
 {
   char kind[16], *a[3], q[2];
-  char tmp[1200];
+  char tmp[4300];
   snprintf (tmp, sizeof tmp, "%s", tok);
   char *eq = strchr (tmp, '=');
   pol_str[0] = 0;
@@ -526,7 +539,7 @@ static void u_lp (const char *s)
 static void u_cvp (const char *s)
 {
   error_context_t econ;
-  char v[1200];
+  char v[4400];
   char *volatile r = 0;
   volatile int err = 0;
   object_t *ob = the_obj ();
@@ -587,8 +600,7 @@ static void u_inc (const char *base, const char *name)
  *               d/ (dir)  d/f.txt  d/obj.c (LPC)  d/sub/ (dir)  d/inc.h   include/a  include/std.h
  * parent of the mudlib root (must never be touched): outside.txt  x.c  a (file)
  */
-static char **root_keep = 0;
-static int root_nkeep = 0;
+/* root_keep / root_nkeep: declared above */
 
 static void rm_rf (const char *path)
 {
